@@ -1,4 +1,5 @@
 (* Out/OutDriver.v — case-file driver of the output-stream and resume models.
+   (op k = Close)
    out  <op>*      sequential program            (harness/go/outputstream/zz_verif_out_test.go)
    outc <step>*    scripted concurrent scenario: after every step all readers run until parked
    outs <step>*    explicit schedule under the schedsync shim: steps are labels of OutConc.cstep,
@@ -78,15 +79,17 @@ Definition out_token (sched : bool) (s : ost) (tok : string) : ost :=
   else if String.eqb k "d" then do_label s (LDelete (Nf (nth_field p 1))) "d"
   else if String.eqb k "g" then
     let x := Nf (nth_field p 1) in
+    if c_closed c then emit s c "g=disabled" else
     let '(r, o') := get (c_out c) x in
-    emit s (CState o' (c_threads c))
+    emit s (CState o' (c_threads c) (c_closed c))
          ("g=" ++ match r with Some b => show_batch x b | None => "none" end)
   else if String.eqb k "n" then
-    let '(r, o') := getnext_cancelled (c_out c) (Nf (nth_field p 1)) in
-    emit s (CState o' (c_threads c)) ("n=" ++ show_res r)
+    let '(r, o') := getnext_cancelled_c c (Nf (nth_field p 1)) in
+    emit s (CState o' (c_threads c) (c_closed c)) ("n=" ++ show_res r)
   else if String.eqb k "l" then
     let '(i, r) := last_seen (c_out c) in emit s c ("l=" ++ dec_of_N i ++ "." ++ dec_of_N r)
   else if String.eqb k "i" then do_label s LInterrupt "i"
+  else if String.eqb k "k" then do_label s LClose "k"
   else if String.eqb k "s" then
     let t := nat_field (nth_field p 1) in
     let s' := do_label s (LSpawn t (Nf (nth_field p 2))) "s" in
@@ -157,6 +160,10 @@ Definition res_token (sess : N) (acc : rstate * list string) (tok : string) : rs
     let st1 := set_node (disconnect st) nk (the_node st nk) in
     (connect st1 nk, snoc out "c=ok")
   else if String.eqb k "x" then (disconnect st, snoc out "x=ok")
+  else if String.eqb k "w" then
+    (* another reader walks the node's stream: it only touches the batch cache, which no result
+       depends on (OutProofs.next_unlocked_spec holds for every cache satisfying the invariant) *)
+    (st, snoc out "w=ok")
   else if String.eqb k "r" then
     let fuel := match r_conn st with
                 | Some (nk, _) => (4 * count_msgs (n_out (the_node st nk)) + 4 * length (r_inflight st) + 64)%nat
